@@ -197,6 +197,58 @@ def failing_allof_binds(desc):
 
 
 @rechecked
+def check_range_vars(kind, seq):
+    """
+    One range-level constraint variable verified against several ranges in ONE context (as the operand / result segments of an op do): every
+    occurrence must equal the first one - including when the first one is the EMPTY range - and satisfy the variable's own constraint.
+    kind: "range" (RangeVarConstraint), "length" (RangeOf(...).of_length(IntVarConstraint)), "elem" (RangeOf(VarConstraint)).
+    """
+    from xdsl.dialects.builtin import IndexType, i32, i64
+    from xdsl.irdl import AnyAttr, AnyInt, BaseAttr, ConstraintContext, IntVarConstraint, RangeOf, RangeVarConstraint, VarConstraint
+    from xdsl.dialects.builtin import IntegerType
+    from xdsl.utils.exceptions import VerifyException
+
+    ty = {"a": i32, "b": i64, "x": IndexType()}
+    if kind == "range":
+        c = RangeVarConstraint("R", RangeOf(BaseAttr(IntegerType)))
+        ok_inner = lambda r: all(t != "x" for t in r)
+        agree = lambda r0, r: r == r0
+    elif kind == "length":
+        c = RangeOf(AnyAttr()).of_length(IntVarConstraint("N", AnyInt()))
+        ok_inner = lambda r: True
+        agree = lambda r0, r: len(r) == len(r0)
+    else:
+        c = RangeOf(VarConstraint("T", BaseAttr(IntegerType)))
+        ok_inner = lambda r: all(t != "x" for t in r)
+        agree = None
+    ctx = ConstraintContext()
+    first = None
+    bound_elem = None
+    for r in seq:
+        if kind == "elem":
+            exp = ok_inner(r) and len(set(r) | ({bound_elem} if bound_elem else set())) <= 1
+        else:
+            exp = ok_inner(r) and (first is None or agree(first, r))
+        try:
+            c.verify(tuple(ty[t] for t in r), ctx)
+            got = True
+        except VerifyException:
+            got = False
+        except Exception as e:  # noqa: BLE001
+            return {"key": "C09/range-variables", "what": f"verify raised {type(e).__name__}: {str(e)[:120]}", "constraint kind": kind, "ranges": list(seq), "inputs": {}}
+        if got != exp:
+            return {"key": "C09/range-variables", "what": f"after {list(seq[:seq.index(r)])!r} the range {r!r} is accepted={got}; all occurrences of the variable must agree: {exp}",
+                    "constraint kind": kind, "ranges": list(seq), "inputs": {}}
+        if not got:
+            return None  # the context after a rejection is not specified
+        if first is None:
+            first = r
+        if kind == "elem" and r and bound_elem is None:
+            bound_elem = r[0]
+    return None
+
+
+@rechecked
 def check_shared(seed, case):
     """
     Constraint objects are immutable values: building further constraints FROM an existing constraint object (as `c & x`, `c | y`, AllOf / AnyOf
@@ -380,6 +432,17 @@ def explore(tier, seed):
     cases += 1
     if f:
         fails.append(f)
+    import itertools
+
+    ranges = ["", "a", "b", "ab", "aa", "x"]
+    for kind in ("range", "length", "elem"):
+        for L in (2, 3):
+            for seq in itertools.product(ranges, repeat=L):
+                cases += 1
+                f = check_range_vars(kind, list(seq))
+                if f and (f["key"], None) not in seen:
+                    seen.add((f["key"], None))
+                    fails.append(f)
     for case in range(n):
         cases += 1
         f = check_shared(seed, case)
@@ -396,7 +459,8 @@ def explore(tier, seed):
     return {"cases": cases, "failures": fails, "exhaustive": False, "nontrivial": cases,
             "bound": f"{n} seeded constraint trees (depth <= 3; any/eq/set/base/param/var/allof/anyof) x 23 attribute values (falsy values included), second attribute in the "
                      "context of a first, inference under 3 variable bindings, AnyOf.get / | / & of 2-4 variable-free alternatives; 19 type hints x 26 attributes vs isa; "
-                     f"{n} shared-object scenarios (composites built from one constraint object must not change its bases or acceptance)"}
+                     f"{n} shared-object scenarios (composites built from one constraint object must not change its bases or acceptance); "
+                     "range-level variables (range, length, element type) verified against every sequence of 2-3 ranges over 6 small ranges (the empty one included) in one context"}
 
 
 NATIVE = [("constraints-vs-reference", explore)]
